@@ -87,7 +87,7 @@ let run_prefetch (parts : string list) : string =
   let s0 = run ev0 in
   let out = Printf.sprintf "timing=ok warm=A/1 early=%d/%d early_up=%d early_infl=%d"
       (count_a s0.pfs_answers) n (len_nat s0.pfs_sent) (len_nat s0.pfs_inflight) in
-  let t_fire = tl * 3 / 4 + 200 * ms in
+  let t_fire = tl * 3 / 4 + 150 * ms in
   let to_fire = PfTick (zt (t_fire - t_early)) in
   match mode with
   | "early" -> out
